@@ -125,6 +125,7 @@ fn run_history(ops: &[Op], ctx: &mut Ctx) -> Result<(), Violation> {
     }
     for (i, op) in ops.iter().enumerate() {
         let ff_before = rf.board.int_ff;
+        let board_before = rf.board.clone();
         match op {
             Op::Idle { micr, n, ie } => {
                 m.cpu_reset();
@@ -201,6 +202,15 @@ fn run_history(ops: &[Op], ctx: &mut Ctx) -> Result<(), Violation> {
                     return Err(v("fan-period", i, format!("program read fan period {} for DAC byte {} (law gives {})", got, rf.board.do1, rf.board.fan_period())));
                 }
             }
+        }
+        // bits no statement pins (see BoardRef::adopt_after_write)
+        let written = match op {
+            Op::S(Stim::BusWrite(a, val)) | Op::ProgWrite(a, val) => Some((*a, *val)),
+            _ => None,
+        };
+        if let Some((a, val)) = written {
+            let b = m.bus().board();
+            rf.board.adopt_after_write(a, val, &board_before, b.dasr().bits(), b.daisr().bits());
         }
         ctx.cov.extra("operations", 1);
         // reach: source x polarity x cause x raised?
